@@ -224,8 +224,10 @@ class RefExec:
         an explicit null.)  Knob skip_null_excludes models the engine's recorded deviation: a null `if`
         drops the selection whichever the directive."""
         for d in sel.directives:
+            if d.name not in ("skip", "include"):
+                continue
             v = self.dir_value(d)
-            if v is None and d.name in ("skip", "include"):
+            if v is None:
                 self.plan.probe("if_null_on_" + d.name)
                 if self.k.get("skip_null_excludes"):
                     return False
